@@ -35,6 +35,8 @@ Classes == {
   "msg.body.hostile",  \* None mode: intact headers, body with hostile lengths (array length -2, 2^31-1)
   "opn.junkuri",       \* OPN with an unknown security policy URI
   "opn.junkcert",      \* OPN naming a real policy with a certificate that is not DER
+  "opn.eccert",        \* OPN naming a real policy with a well-formed certificate whose key is not RSA
+  "opn.nocert",        \* OPN naming a real policy with a null certificate
   "opn.hugelen",       \* OPN whose policy URI length field is 2^31-1
   "opn.neglen",        \* OPN whose policy URI length field is -5
   "opn.junkbody",      \* OPN with a plausible security header and random bytes behind it
